@@ -540,8 +540,8 @@ func (d *Dispatcher) handleError(p *peer, msg *p2p.ErrorMessage) {
 }
 
 func (d *Dispatcher) handleAnnouncePiece(p *peer, msg *p2p.AnnouncePieceMessage) {
-	if int(msg.Index) >= d.torrent.NumPieces() {
-		d.log().Errorf("Announce piece out of bounds: %d >= %d", msg.Index, d.torrent.NumPieces())
+	if !d.isValidPiece(int(msg.Index)) {
+		d.log().Errorf("Announce piece out of bounds: %d not in [0, %d)", msg.Index, d.torrent.NumPieces())
 		return
 	}
 	i := int(msg.Index)
@@ -553,8 +553,14 @@ func (d *Dispatcher) handleAnnouncePiece(p *peer, msg *p2p.AnnouncePieceMessage)
 	}
 }
 
+// isValidPiece returns true if i is the index of a piece of d's torrent. Indices
+// come from remote peers and may be anything.
+func (d *Dispatcher) isValidPiece(i int) bool {
+	return i >= 0 && i < d.torrent.NumPieces()
+}
+
 func (d *Dispatcher) isFullPiece(i, offset, length int) bool {
-	return offset == 0 && length == int(d.torrent.PieceLength(i))
+	return d.isValidPiece(i) && offset == 0 && length == int(d.torrent.PieceLength(i))
 }
 
 func (d *Dispatcher) handlePieceRequest(p *peer, msg *p2p.PieceRequestMessage) {
